@@ -1,7 +1,7 @@
 import props
 
 CONFIG = {
-    "runs": props.simple("c19", 400, 4000),
+    "runs": props.simple("c19", 1500, 4000),
     "status": "full (for WF C n, all_reachable C, 2 <= n, to_cnf C n = Ok F; arbitrary size, sharing, single-child and n-ary nodes): "
               "C19_sound (every satisfying assignment of the CNF restricted to 1..n is a model of the d-DNNF), "
               "C19_extension_exists_unique (every model extends to a satisfying assignment, unique on all declared variables), "
